@@ -114,7 +114,7 @@ class Gen:
         self.tmpl_json = tmpl_json
 
     # ---- requests / entities / contexts
-    def entities(self, with_parents=True):
+    def entities(self, with_parents=True, owner=True):
         rng = self.rng
         es = []
         for g in GROUPS:
@@ -129,31 +129,34 @@ class Gen:
                 es.append({"uid": uidj("User", u), "attrs": attrs, "parents": ps})
         for d in DOCS:
             if rng.random() < 0.85:
-                owner = rng.choice(USERS)
-                es.append({"uid": uidj("Doc", d), "attrs": {
-                    "owner": rng.choice([uidj("User", owner), {"__entity": uidj("User", owner)}]),
-                    "public": rng.random() < 0.3}, "parents": []})
+                owner_ = rng.choice(USERS)
+                attrs = {"public": rng.random() < 0.3}
+                if owner:
+                    attrs["owner"] = rng.choice([uidj("User", owner_), {"__entity": uidj("User", owner_)}])
+                es.append({"uid": uidj("Doc", d), "attrs": attrs, "parents": []})
         rng.shuffle(es)
         return es
 
-    def context(self):
+    def context(self, sv=None):
         rng = self.rng
         c = {}
         r = rng.random()
-        if r < 0.6:
-            c["n"] = rng.choice([0, 3, 6, 7, -1, 200])
-        elif r < 0.8:
-            c["n"] = rng.choice(["seven", "x"])
+        p_long = 0.1 if sv == "v2" else 0.85
+        if r < 0.93:
+            if rng.random() < p_long:
+                c["n"] = rng.choice([0, 3, 6, 7, -1, 200])
+            else:
+                c["n"] = rng.choice(["seven", "x"])
         if rng.random() < 0.4:
             c["ip"] = rng.choice(["127.0.0.1", "10.0.0.1", {"__extn": {"fn": "ip", "arg": "127.0.0.1"}}, "::1"])
         return c
 
-    def request(self):
+    def request(self, sv=None):
         rng = self.rng
-        return {"principal": uidj("User", rng.choice(USERS)) if rng.random() < 0.9 else uidj("Group", "g1"),
-                "action": uidj("Action", rng.choice(["view", "view", "edit"])),
+        return {"principal": uidj("User", rng.choice(USERS)) if rng.random() < 0.93 else uidj("Group", "g1"),
+                "action": uidj("Action", rng.choice(["view", "view", "view", "edit"] if sv != "v3" else ["view"] * 9 + ["edit"])),
                 "resource": uidj("Doc", rng.choice(DOCS)),
-                "context": self.context()}
+                "context": self.context(sv)}
 
     # ---- policy sets: abstract = list of (id, body) + templates + links, rendered in a shape
     def abstract_pset(self, nmax=5, templates=True):
@@ -241,14 +244,14 @@ class Gen:
         rng = self.rng
         if rng.random() < p_bad:
             return rng.choice(BAD_SCHEMAS)
-        v = rng.choice(["v1", "v1", "v2", "v3"])
+        v = rng.choice(["v1", "v1", "v1", "v1", "v2", "v2", "v3"])
         return SCHEMA_CEDAR[v] if rng.random() < 0.5 else schema_json(v)
 
-    def auth_call(self, policies, schema=None, malformed=False):
+    def auth_call(self, policies, schema=None, malformed=False, sv=None):
         rng = self.rng
-        q = self.request()
+        q = self.request(sv)
         call = {"principal": q["principal"], "action": q["action"], "resource": q["resource"], "context": q["context"],
-                "policies": policies, "entities": self.entities()}
+                "policies": policies, "entities": self.entities(owner=(sv != "v3"))}
         if schema is not None:
             call["schema"] = schema
         r = rng.random()
@@ -283,7 +286,7 @@ def cmp_auth(ans):
     """ffi vs api for a stateless authorization; returns a reason string or None"""
     f, a = ans["ffi"], ans["api"]
     for k in ("ffi_str", "ffi_typed"):
-        if ans[k] != f:
+        if canon(ans[k]) != canon(f):
             return "entry points disagree: is_authorized_json vs %s" % k
     if "bad_call" in f:
         return None
@@ -310,7 +313,7 @@ def cmp_auth(ans):
     want = len([s for s in stages if s != "policies"]) + (a.get("policy_errors", 0) if "policies" in stages else 0)
     if len(f["fail"]) != want:
         return "number of reported errors differs (FFI %d, API stages %r)" % (len(f["fail"]), stages)
-    for s in ("schema", "principal", "action", "resource"):
+    for s in ("principal", "action", "resource"):
         has = any(m.startswith("failed to parse " + s) for m in f["fail"])
         if has != (s in stages):
             return "failing stage %s not reported alike" % s
@@ -319,7 +322,7 @@ def cmp_auth(ans):
 
 def cmp_generic(op, ans):
     f, a = ans["ffi"], ans["api"]
-    if "ffi_str" in ans and ans["ffi_str"] != f:
+    if "ffi_str" in ans and canon(ans["ffi_str"]) != canon(f):
         return "entry points disagree (_json vs _json_str)"
     if "bad_call" in f:
         return None
@@ -349,7 +352,17 @@ def cmp_generic(op, ans):
 
 
 def strip_warn(a):
-    return {k: v for k, v in a.items() if k != "warnings"}
+    return canon({k: v for k, v in a.items() if k != "warnings"})
+
+
+def canon(a):
+    """error lists are collected while iterating HashMaps: their order is not part of the answer"""
+    if isinstance(a, dict) and "bad_call" in a:
+        return {"bad_call": True}      # serde's message carries line/column for the string entry point
+    if isinstance(a, dict) and isinstance(a.get("fail"), list):
+        a = dict(a)
+        a["fail"] = sorted(a["fail"], key=repr)
+    return a
 
 
 # ------------------------------------------------------------------ CLI
@@ -409,8 +422,8 @@ def run(rep, tier, seed):
     stateless_cmds, fam_index = [], []
     for fi in range(n_fam):
         ab = g.abstract_pset()
-        sv = rng.choice([None, "v1", "v1", "v2", "v3"])
-        base = g.auth_call(None, None)
+        sv = rng.choice([None, None, "v1", "v1", "v1", "v1", "v1", "v2", "v2", "v3"])
+        base = g.auth_call(None, None, sv=sv)
         variants = []
         for shape in ("text", "map_text", "map_json", "map_mixed"):
             for sshape in (("cedar", "json") if sv else (None,)):
@@ -556,19 +569,23 @@ def run(rep, tier, seed):
     for hi in range(n_hist):
         ops = []
         L = rng.randint(4, 16)
-        # a small pool of sources for this history so that re-registration changes answers
+        seenp, seens = [], []       # names a registration was attempted under so far
         for _ in range(L):
             r = rng.random()
-            if r < 0.3:
-                ops.append({"op": "preparse_pset", "name": rng.choice(PN[:3] if rng.random() < 0.8 else PN), "policies": g.pset_source(0.3)})
-            elif r < 0.45:
-                ops.append({"op": "preparse_schema", "name": rng.choice(SN), "schema": g.schema_source(0.3)})
+            if r < 0.3 or not seenp:
+                n = rng.choice(PN[:2] if rng.random() < 0.75 else PN)
+                seenp.append(n)
+                ops.append({"op": "preparse_pset", "name": n, "policies": g.pset_source(0.25)})
+            elif r < 0.42:
+                n = rng.choice(SN[:2] if rng.random() < 0.8 else SN)
+                seens.append(n)
+                ops.append({"op": "preparse_schema", "name": n, "schema": g.schema_source(0.25)})
             else:
-                q = g.auth_call(None, None, malformed=rng.random() < 0.08)
+                q = g.auth_call(None, None, malformed=rng.random() < 0.06)
                 q.pop("policies")
-                q["preparsedPolicySetId"] = rng.choice(PN + ["Z"]) if rng.random() < 0.85 else rng.choice(PN[:2])
-                if rng.random() < 0.6:
-                    q["preparsedSchemaName"] = rng.choice(SN + ["Y"]) if rng.random() < 0.9 else "S"
+                q["preparsedPolicySetId"] = rng.choice(seenp) if rng.random() < 0.85 else rng.choice(PN + ["Z"])
+                if rng.random() < 0.5:
+                    q["preparsedSchemaName"] = rng.choice(seens) if (seens and rng.random() < 0.85) else rng.choice(SN + ["Y"])
                 ops.append({"op": "stateful_auth", "call": q})
         histories.append(ops)
     resh = fw.run_rust(harness, [{"cmd": "ffi_history", "calls": h} for h in histories])
@@ -756,10 +773,10 @@ def run(rep, tier, seed):
             ab = g.abstract_pset(templates=False)
             bad = rng.random() < 0.15
             text = "\n".join(ab["bodies"]) + ("\npermit(principal, action" if bad else "")
-            sv = rng.choice([None, "v1", "v2", "v3"])
+            sv = rng.choice([None, "v1", "v1", "v1", "v2", "v3"])
             sfmt = rng.choice(["cedar", "json"])
-            q = g.request()
-            ents = g.entities()
+            q = g.request(sv)
+            ents = g.entities(owner=(sv != "v3"))
             call = {"principal": q["principal"], "action": q["action"], "resource": q["resource"], "context": q["context"],
                     "policies": {"staticPolicies": text}, "entities": ents}
             if sv:
